@@ -2,7 +2,7 @@
   C01 — second half of the invariant preservation (existential / history clauses) and the
   master lemma `inv_reach`: every reachable state satisfies `Inv`.
 -/
-import Kopf.Lemmas.C01_Inv
+import Kopf.Lemmas.C01_InvB
 namespace Kopf.C01
 
 section
